@@ -31,3 +31,27 @@ def module_lists(relpath: str, names) -> dict:
 
 def iban_literals() -> dict:
     return module_lists("tests/test_iban.py", ["valid", "invalid", "experimental"])
+
+
+def german_literals() -> dict:
+    """{'success': [(account, 'DE:xx')...], 'failure': [...]} from tests/test_checksum.py parametrize lists."""
+    out = {"success": [], "failure": []}
+    try:
+        with open(os.path.join(env.REPO, "tests/test_checksum.py"), encoding="utf-8") as fp:
+            tree = ast.parse(fp.read())
+        for node in tree.body:
+            if not isinstance(node, ast.FunctionDef):
+                continue
+            key = "success" if node.name.endswith("german_checksum_success") else "failure" if node.name.endswith("german_checksum_failure") else None
+            if not key:
+                continue
+            for dec in node.decorator_list:
+                if isinstance(dec, ast.Call) and len(dec.args) >= 2:
+                    try:
+                        vals = ast.literal_eval(dec.args[1])
+                        out[key] += [(a, m) for a, m in vals if isinstance(a, str) and isinstance(m, str)]
+                    except Exception:  # noqa: BLE001
+                        pass
+    except Exception:  # noqa: BLE001
+        pass
+    return out
